@@ -50,6 +50,7 @@ func (cr *concRun) analyse(out *ConcOutcome) {
 	cr.checkBoundAndViews()
 	cr.checkEvents()
 	cr.checkLoads()
+	cr.checkJoinedFinishedLoad()
 	cr.checkStaleLoad()
 	cr.checkLoadRemovedNewerWrite()
 	cr.checkCompute()
@@ -1333,8 +1334,24 @@ func (cr *concRun) linMultiKey(h *HistOp, perKey map[int][]porcupine.Operation, 
 				// published; no listed property forbids that): no "observed a miss" step, only the
 				// outcome of the load it then started
 				outcome(miss, k)
+			default:
+				// neither: it joined a call that was already in flight. The result it delivers is that
+				// call's: like a waiting Get it may only be delivered once the load has finished (its
+				// value installed or discarded) - a Refresh that reports the reloaded value while the
+				// cache still serves the old one has been released too early
+				for _, rr := range h.Res.Refresh {
+					if rr.K != k || rr.Err != "" {
+						continue
+					}
+					for _, l := range cr.r.Loads {
+						if lv, ok := l.Ret[k]; ok && lv == rr.V && l.Outcome == "val" && l.Op != op {
+							add(k, linIn{kind: "loadres", mayWait: true}, linOut{v: rr.V, ok: true}, h.Call, h.Ret)
+							cr.probe["lin-refresh-joiners-checked-against-finished-load"]++
+							break
+						}
+					}
+				}
 			}
-			// neither: it joined a call that was already in flight - no step of its own
 		case "bulkget":
 			v, inRes := h.Res.Map[k]
 			failed := h.Res.Panic || h.Res.Err != ""
@@ -1395,7 +1412,7 @@ func (cr *concRun) dumpTimeline() {
 	}
 	var ls []line
 	for _, h := range cr.hist {
-		ls = append(ls, line{h.Call, fmt.Sprintf("c%d#%d CALL %s", h.Task, h.Idx, h.Op)})
+		ls = append(ls, line{h.Call, fmt.Sprintf("c%d#%d CALL %s now=%d", h.Task, h.Idx, h.Op, h.Now)})
 		if h.Done {
 			if len(h.Res.Entries) > 0 {
 				ents := ""
@@ -1535,9 +1552,6 @@ func (cr *concRun) checkFreshNotReloaded() {
 				continue
 			}
 			ds := []int64{cfg.refCreate(k, v), cfg.refUpdate(k, v), cfg.refReload(k, v)}
-			if f := cfg.refFail(k, v); f != 0 {
-				ds = append(ds, f)
-			}
 			dmin := int64(math.MaxInt64)
 			for _, d := range ds {
 				if d < dmin {
@@ -1552,8 +1566,68 @@ func (cr *concRun) checkFreshNotReloaded() {
 			if deadline < t0 {
 				deadline = math.MaxInt64
 			}
+			// A failing load made for a refresh applies RefreshAfterReloadFailure to whatever entry the
+			// key holds when it finishes - also when it was started (and sampled the clock) long before
+			// v was installed and was delayed since. Its sample is at least the clock at which its
+			// loader was entered.
+			if f := cfg.refFail(k, v); f < 0 {
+				continue
+			} else if f > 0 {
+				for _, fl := range cr.r.Loads {
+					if !(fl.Reload || (fl.Op != nil && (fl.Op.Kind == "refresh" || fl.Op.Kind == "bulkrefresh"))) {
+						continue
+					}
+					if !(fl.Outcome == "err" || fl.Outcome == "panic" || (fl.Bulk && fl.Outcome == "notfound")) {
+						continue
+					}
+					for _, fk := range fl.Keys {
+						if fk == k {
+							if d, _ := addDeadline(fl.NowEnter, f); d < deadline {
+								deadline = d
+							}
+						}
+					}
+				}
+			}
 			if trig.NowRet < deadline {
 				cr.fail(P("C11"), "refresh.fresh-entry-reloaded", k, "key %d: a read (task %d op %d, clock <= %d) handed a reload of value %d to the executor although that value was installed at clock >= %d and stays fresh for at least %d ns (earliest refresh time %d)", k, trig.Task, trig.Idx, trig.NowRet, v, t0, dmin, deadline)
+			}
+		}
+	}
+}
+
+// checkJoinedFinishedLoad (C08: a loader that fails "releases all waiters and leaves no in-flight
+// record behind, so a later Get loads afresh"). A failing single loader hands back a value next to
+// its error; that value is unique, is never cached, and so identifies the loader invocation whose
+// outcome a Get returned. Once any caller has *returned* with that outcome the load is over; a Get
+// invoked after that moment which returns the same outcome has joined a finished load instead of
+// loading afresh (or joining a load that is still running).
+func (cr *concRun) checkJoinedFinishedLoad() {
+	for _, l := range cr.r.Loads {
+		if l.Bulk || l.Outcome != "err" || len(l.Keys) != 1 {
+			continue
+		}
+		k := l.Keys[0]
+		v, ok := l.Ret[k]
+		if !ok {
+			continue
+		}
+		var recv []*HistOp
+		for _, h := range cr.hist {
+			if h.Done && h.Op.Kind == "load" && h.Op.K == k && h.Res.Err == "err" && h.Res.V == v {
+				recv = append(recv, h)
+			}
+		}
+		if len(recv) < 2 {
+			continue
+		}
+		cr.probe["failed-load-outcome-shared-by-several-callers"]++
+		for _, late := range recv {
+			for _, early := range recv {
+				if early != late && late.Call > early.Ret {
+					cr.fail(P("C08"), "load.joined-finished-load", k, "key %d: Get of task %d (invoked at %d) returned the outcome of the failing loader call entered at %d (value %d) although task %d had already returned with that outcome at %d: the load was over and its in-flight record should have been gone", k, late.Task, late.Call, l.Enter, v, early.Task, early.Ret)
+					return
+				}
 			}
 		}
 	}
